@@ -2226,3 +2226,17 @@ Proof.
   - intros x Hx. apply sp_ids_info. unfold s_live in Hx. fold p. destruct (s_info p x); [discriminate | discriminate].
   - pose proof (chain_rem_le (s_ids p) (s_live p) (s_must p)). lia.
 Qed.
+
+(* non-vacuity with allocating destructors: object 1 allocates 10 and 11 when it is deleted; both are
+   managed objects of the machine afterwards (registered), so teardown_complete speaks about them *)
+Definition alloc_history : list ev :=
+  [ENew KManaged false 1 [] []; ESpawn 1 [10; 11]; ENew KManaged true 2 [] [1]; ELink 2 (Some 1);
+   EObs [([], [2]); ([], [2])]; EDel KManaged 2].
+
+Example alloc_history_ok :
+  let s := runF alloc_history in
+  no_alloc_or_del_in_stop_window true true true alloc_history = true /\ bad s = false /\ torn s = false /\
+  fin_count s 1 = 1 /\ fin_count s 2 = 1 /\
+  info s 10 = Some (KManaged, false) /\ info s 11 = Some (KManaged, false) /\
+  fin_count (runF (alloc_history ++ [ETeardown []])) 11 = 1.
+Proof. vm_compute. repeat split; reflexivity. Qed.
